@@ -579,8 +579,9 @@ class Report:
       if v['witness']:
         print('    witness: %s' % v['witness'])
       print('VIOLATION property=%s replay=%s' % (self.prop, path))
-      if exit_code == 0:
-        exit_code = 1
+      # a violation that is not a listed finding decides the verdict, also when
+      # some other rule lost instances (the tree is being changed, after all)
+      exit_code = 1
     if not dry:
       self._write_evidence(seed, len(unlisted), len(listed))
     total = len(self.instances)
